@@ -275,7 +275,7 @@ static void harmonics(unsigned long long& unit)
 int main(int argc, char** argv)
 {
 	mc::init(argc, argv);
-	if(mc::ctx().replay) { printf("%s\n", mc::ctx().replay_case.c_str()); return 0; }
+	if(mc::ctx().replay) { printf("%s\n(no single-case replay for this part; use ./vcheck --replay <file>, which re-runs the enumeration for this key)\n", mc::ctx().replay_case.c_str()); return 0; }
 	silence();
 	mc::bound("rule", "Dawson/Erfi on {k/64: |k|<=1920} and both sides of |x|=0.2; Inv_Erf on 4001 points and +-(1-10^-k), k<=12; Round: every d-digit mantissa (d<=3 all exponents -299..299; d=4 all exponents in thorough, every tenth in quick; d=5..7 at exponents {-5,0,17}) each with its nextafter neighbours and the half-way point +-1 ulp; all pairs of a 12-value alphabet for Sign/StepFunction/Relative_Difference/Floats_Equal; all (l,m) with l<=12 x 144 directions");
 	unsigned long long unit = 0;
